@@ -612,12 +612,16 @@ func GenSession(prop string, seed uint64, thorough bool) *Scenario {
 	// live in check-then-act windows a few statements wide (a close next to a close cause, an orderly close next
 	// to the arriving poll, two requests of one kind, a send next to the switch).  A client's own clock starts
 	// when it has processed the open packet: StartMs + 2*latency on every transport.
-	if !sc.FaultFree && g.p(0.35) {
+	if !sc.FaultFree && (g.p(0.35) || (prop == "C12" && g.p(0.3))) {
 		ci := g.IntN(len(sc.Clients))
 		c := &sc.Clients[ci]
 		if len(c.Raw) == 0 {
 			openAt := c.StartMs + 2*c.LatencyMs
-			switch g.IntN(5) {
+			kind := g.IntN(5)
+			if prop == "C12" && g.p(0.5) {
+				kind = 1 // (the orderly close next to the arriving poll is C12's own window)
+			}
+			switch kind {
 			case 0: // application close in the instant of a client-side fault / silence / orderly close
 				at := -1
 				if len(c.Faults) > 0 {
